@@ -498,13 +498,13 @@ func (b *c16GatedBV) Done() []func() error {
 var errC16Inconclusive = errors.New("inconclusive: verification did not finish within the deadline but the job was still making progress")
 
 const (
-	c16QuiescentFor = 4 * time.Second
+	c16QuiescentFor = 6 * time.Second
 	c16Deadline     = 150 * time.Second
 )
 
 // c16Await waits for ch. If nothing arrives it distinguishes a deadlock (positive evidence:
 // no verification task is running and not a single counter of the job moved for
-// c16QuiescentFor, observed over >= 60 polls) from mere slowness (inconclusive).
+// c16QuiescentFor, observed over >= 100 polls) from mere slowness (inconclusive).
 func c16Await[T any](ch <-chan T, job func() *c16Job, what string) (T, error) {
 	var zero T
 	start := time.Now()
@@ -530,7 +530,7 @@ func c16Await[T any](ch <-chan T, job func() *c16Job, what string) (T, error) {
 		}
 		polls++
 		running := snap[2] - snap[3]
-		if j != nil && running == 0 && polls >= 60 && time.Since(lastChange) >= c16QuiescentFor {
+		if j != nil && running == 0 && polls >= 100 && time.Since(lastChange) >= c16QuiescentFor {
 			return zero, fmt.Errorf("%s never completes: the job is quiescent (tasks submitted=%d accepted-by-pool=%d started=%d finished=%d running=0, job.Done called=%v, no change for %s) yet neither fails nor succeeds; live pool worker goroutines=%d",
 				what, snap[0], snap[1], snap[2], snap[3], snap[4] > 0, time.Since(lastChange).Round(time.Second), c16CountGoroutines("ParallelWorkers).startWorker"))
 		}
